@@ -75,6 +75,7 @@ class Explorer:
         self.branch_timeout_ms = branch_timeout_ms
         self.max_paths = max_paths
         self.speculative = 0
+        self.branch_rlimit = 4000000
         self.base_pc = []
         self.prefix = ''
         self.fork_site = None
@@ -137,7 +138,8 @@ class Explorer:
     def _check(self, cond):
         t0 = time.time()
         s = z3.Solver()
-        s.set('timeout', self.branch_timeout_ms)
+        # resource limit, not wall-clock: deterministic and thread-free
+        s.set('rlimit', self.branch_rlimit)
         for c in relevant(self.pc, symbols_of(cond)):
             s.add(c)
         s.add(cond)
